@@ -677,6 +677,76 @@ class Ref(object):
         return out
 
 
+    # -- number of derivations (not of shaped trees: `start: A+ | A` has two derivations of "a" with one shaped tree)
+    def count(self, cap=100000):
+        self.solve()
+        memo = {}; active = set()
+        def c_seq(items, k, i, j):
+            if k == len(items): return 1 if i == j else 0
+            key = ('s', id(items), k, i, j)
+            if key in memo: return memo[key]
+            tot = 0
+            for m in self._e(items[k], i):
+                if m > j or not self.feas(items, k + 1, m, j): continue
+                h = c_item(items[k], i, m)
+                if h: tot += h * c_seq(items, k + 1, m, j)
+            if tot > cap: raise TooMany()
+            memo[key] = tot
+            return tot
+        def c_item(x, i, j):
+            k = x[0]
+            if k in ('t', 'lit', 're'):
+                return sum(1 for e, _n, _p in self.tok(x, i) if j in self.after(e))
+            if k == 'n':
+                key = ('R', x[1], i, j)
+                if key in memo: return memo[key]
+                if key in active: raise Cyclic(x[1])
+                active.add(key)
+                try:
+                    tot = sum(c_seq(a['items'], 0, i, j) for a in self.rules[x[1]]['alts'] if self.feas(a['items'], 0, i, j))
+                finally:
+                    active.discard(key)
+                memo[key] = tot
+                return tot
+            key = ('i', id(x), i, j)
+            if key in memo: return memo[key]
+            if k == 'grp': tot = sum(c_seq(a, 0, i, j) for a in x[1] if self.feas(a, 0, i, j))
+            elif k == 'maybe': tot = sum(c_seq(a, 0, i, j) for a in x[1] if self.feas(a, 0, i, j)) + (1 if i == j else 0)
+            elif k == 'opt': tot = (c_item(x[1], i, j) if j in self._e(x[1], i) else 0) + (1 if i == j else 0)
+            elif k in ('star', 'plus'):
+                if i in self._e(x[1], i): raise Cyclic('repetition of a nullable body')
+                star = self._star_of(x)
+                def many(p, allow_zero):
+                    kk = ('m', id(x), p, j, allow_zero)
+                    if kk in memo: return memo[kk]
+                    t_ = 1 if (allow_zero and p == j) else 0
+                    for m in self._e(x[1], p):
+                        if m > j or (m != j and j not in self._e(star, m)): continue
+                        h = c_item(x[1], p, m)
+                        if h: t_ += h * many(m, True)
+                    memo[kk] = t_
+                    return t_
+                tot = many(i, k == 'star')
+            elif k == 'rep':
+                def rep(p, lo, hi):
+                    kk = ('r', id(x), p, j, lo, hi)
+                    if kk in memo: return memo[kk]
+                    t_ = 1 if (lo <= 0 and p == j) else 0
+                    if hi > 0:
+                        for m in self._e(x[1], p):
+                            if m > j: continue
+                            h = c_item(x[1], p, m)
+                            if h: t_ += h * rep(m, max(0, lo - 1), hi - 1)
+                    memo[kk] = t_
+                    return t_
+                tot = rep(i, x[2], x[3])
+            else:
+                raise ValueError(x)
+            if tot > cap: raise TooMany()
+            memo[key] = tot
+            return tot
+        return sum(c_item(['n', self.start], p, self.n) for p in sorted(self.after(0)) if self.n in self.T[self.start][p])
+
     # -- validation of one given shaped tree (complete for cyclic grammars too: a shortest derivation never repeats
     #    a state (rule, position, child index) on its own path, so cutting on re-entry loses nothing; results are
     #    memoised only when no cut happened underneath)
